@@ -287,8 +287,15 @@ class RefDevice:
             return False
         if conn.cid in self.pending_tail:
             return False          # one half-sent packet at a time (a second one would corrupt the stream)
-        pkt = self.wrap(conn, self.state_frame(ftype=acmodel.FT_REPORT), key)
-        k = max(1, min(k, len(pkt) - 1))
+        for _ in range(40):
+            pkt = self.wrap(conn, self.state_frame(ftype=acmodel.FT_REPORT), key)
+            k = max(1, min(k, len(pkt) - 1))
+            # if a flush discards the head, what follows must be marker-free garbage for the next packet
+            # to be found (ciphertext contains the marker bytes by chance once in ~450 packets)
+            if b"\x83\x70" not in pkt[k:] and not (pkt[k:k + 1] == b"\x70" and pkt[k - 1:k] == b"\x83" and k > 1):
+                break
+        else:
+            return False
         conn.send(pkt[:k], lat=MIN_LAT)
         self.pending_tail[conn.cid] = pkt[k:]
         self._fire("partial_unsolicited_packet")
